@@ -355,7 +355,13 @@ fn run_one(sink: &mut Sink, dict: &JapaneseDictionary, text: &str, mode: u8, st:
                 sink.tag("normalised_empty");
             }
             sink.tag(&format!("morphemes={}", usize::min(a.morphs.len(), 10)));
-            let id = sink.case(term(text, &a), d, (!identity || rewritten) && a.morphs.len() > 1);
+            // very long inputs are checked by the Rust-side statement of the property only (no Coq term of that size)
+            let id = if text.len() > 3000 {
+                sink.tag("long_input_rust_oracle_only");
+                sink.case_rust_only(d, false)
+            } else {
+                sink.case(term(text, &a), d, (!identity || rewritten) && a.morphs.len() > 1)
+            };
             let o = oracle(text, &a);
             if verbose {
                 println!("input      : {:?}", text);
